@@ -519,6 +519,53 @@ structure PairWF (nG : Nat) (p : Pair) : Prop where
   upLt : ∀ g ∈ p.up, g < nG
   downLt : ∀ g ∈ p.down, g < nG
 
+/-! ### the block loop of `create_utility_array` -/
+
+theorem initUtil_append (a b : List Slot) (g : Nat) :
+    initUtil (a ++ b) g = initUtil a g + initUtil b g := by
+  simp [initUtil, List.sum_append]
+
+theorem initUtilB_aux (bs : Nat) (hbs : 0 < bs) (g : Nat) : ∀ (fuel : Nat) (l : List Slot),
+    l.length ≤ fuel →
+    ((blockSlicesAux fuel bs l).map (fun blk => initUtil blk g)).sum = initUtil l g := by
+  intro fuel
+  induction fuel with
+  | zero =>
+    intro l hl
+    have : l = [] := List.length_eq_zero_iff.mp (by omega)
+    subst this
+    simp [blockSlicesAux, initUtil]
+  | succ fuel ih =>
+    intro l hl
+    simp only [blockSlicesAux]
+    cases l with
+    | nil => simp [initUtil]
+    | cons x xs =>
+      simp only [List.isEmpty_cons, Bool.false_eq_true, if_false, List.map_cons, List.sum_cons]
+      rw [ih ((x :: xs).drop bs) (by simp only [List.length_drop, List.length_cons] at hl ⊢; omega),
+        ← initUtil_append, List.take_append_drop]
+
+/-- the trailing partial block and every block border are visited exactly
+once: for every block size ≥ 1 the blockwise utility is the utility over all
+the parent's pairs -/
+theorem initUtilB_eq (bs : Nat) (hbs : 0 < bs) (slots : List Slot) (g : Nat) :
+    initUtilB bs slots g = initUtil slots g :=
+  initUtilB_aux bs hbs g slots.length slots (Nat.le_refl _)
+
+theorem initStateB_eq (bs : Nat) (hbs : 0 < bs) (nGenes : Nat) (pairs : List Pair) :
+    initStateB bs nGenes pairs = initStateWhole nGenes pairs := by
+  simp only [initStateB, initStateWhole, St.mk.injEq, true_and, and_true]
+  apply List.map_congr_left
+  intro g _
+  exact initUtilB_eq bs hbs _ g
+
+theorem utilityBlock_pos (gb nGenes : Nat) : 0 < utilityBlock gb nGenes := by
+  unfold utilityBlock; omega
+
+theorem initState_eq_whole (nGenes : Nat) (pairs : List Pair) :
+    initState nGenes pairs = initStateWhole nGenes pairs :=
+  initStateB_eq _ (utilityBlock_pos _ _) nGenes pairs
+
 theorem specUtil_init (pairs : List Pair) (g : Nat) :
     specUtil (pairs.map (fun p => ({ down := p.down, up := p.up } : Slot))) g =
       initUtil (pairs.map (fun p => ({ down := p.down, up := p.up } : Slot))) g := by
@@ -528,28 +575,28 @@ theorem specUtil_init (pairs : List Pair) (g : Nat) :
 theorem Inv.init {n nG : Nat} {pairs : List Pair} (hp : ∀ p ∈ pairs, PairWF nG p) :
     Inv n nG pairs (initState nG pairs) := by
   constructor
-  · simp only [initState, List.map_map]
+  · simp only [initState_eq_whole, initStateWhole, List.map_map]
     conv => rhs; rw [← List.map_id pairs]
     apply List.map_congr_left
     intro p _
     rfl
   · intro s hs
-    simp only [initState, List.mem_map] at hs
+    simp only [initState_eq_whole, initStateWhole, List.mem_map] at hs
     obtain ⟨p, hpm, rfl⟩ := hs
     have := hp p hpm
     exact ⟨this.upNodup, this.downNodup, this.disj, this.upLt, this.downLt⟩
   · intro s hs
-    simp only [initState, List.mem_map] at hs
+    simp only [initState_eq_whole, initStateWhole, List.mem_map] at hs
     obtain ⟨p, _, rfl⟩ := hs
     exact ⟨(cnt_nil p.up).symm, (cnt_nil p.down).symm, rfl, by simp, by simp⟩
-  · simp [initState]
-  · simp [initState]
-  · simp [initState]
-  · simp [initState]
+  · simp [initState_eq_whole, initStateWhole]
+  · simp [initState_eq_whole, initStateWhole]
+  · simp [initState_eq_whole, initStateWhole]
+  · simp [initState_eq_whole, initStateWhole]
   · intro g hg _
-    simp only [initState, List.getElem?_map, List.getElem?_range hg, Option.map_some,
+    simp only [initState_eq_whole, initStateWhole, List.getElem?_map, List.getElem?_range hg, Option.map_some,
       specUtil_init]
-  · simp [initState]
+  · simp [initState_eq_whole, initStateWhole]
 
 /-! ### desperate phase -/
 
@@ -1374,8 +1421,9 @@ theorem runState_perm {nG n : Nat} {ps ps' : List Pair} {t : List Int → Nat} {
     (h' : runState nG ps' n (fun _ u => t u) = .ok st') : Sim st st' := by
   have hp' : ∀ p ∈ ps', PairWF nG p := fun p hpm => hp p (hperm.mem_iff.mp hpm)
   have h0 : Sim (initState nG ps) (initState nG ps') := by
+    rw [initState_eq_whole, initState_eq_whole]
     refine ⟨hperm.map _, ?_, List.Perm.refl _⟩
-    simp only [initState]
+    simp only [initStateWhole]
     apply List.map_congr_left
     intro g _
     exact initUtil_perm (hperm.map _) g
